@@ -18,6 +18,7 @@ import TlxVerif.Proofs.C01EraseH
 import TlxVerif.Proofs.C01Iter
 import TlxVerif.Proofs.C01InsPos
 import TlxVerif.Proofs.C01StdOrder
+import TlxVerif.Proofs.C01Bulk
 namespace TlxVerif.C01
 
 variable {K V : Type}
@@ -176,10 +177,12 @@ def reverse_iteration_refines_statement (p : Params K) : Prop :=
   ∀ (t : Tree K V), TreeInv p t → ∀ e, endPos t.leafChain = some e → ∀ r, r < t.toList.length →
     rderef t.leafChain (iterN (ritInc t.leafChain) r (toReverse t.leafChain e)) = t.toList[t.toList.length - 1 - r]?
 
--- OPEN: bulk_load_refines — `bulkLoad p es` of a sorted range is defined, has entry sequence `es` and satisfies
---   `TreeInv` (the `n / (parts - i)` distribution keeps every node at least half full: nonlinear arithmetic).
-def bulk_load_refines_statement (p : Params K) : Prop :=
-  ∀ (es : List (K × V)), SortedE p.lt es → ∃ t l, bulkLoad p es = some (t, l) ∧ t.toList = es ∧ TreeInv p t
+/-- `bulk_load` of an ordered range (level-by-level construction, `n / (parts − i)` distribution): defined,
+the container holds exactly the range, and the invariant holds -/
+theorem bulk_load_refines (p : Params K) (pv : p.Valid) (sw : StrictWeak p.lt) (es : List (K × V))
+    (hs : SortedE p.lt es) : ∃ t l, bulkLoad p es = some (t, l) ∧ t.toList = es ∧ TreeInv p t := by
+  obtain ⟨t, l, h1, h2, h3, _⟩ := bulkLoad_ok p pv sw es hs
+  exact ⟨t, l, h1, h3, h2⟩
 
 /-- **"up to the relative order of entries with equivalent keys"**: the abstract container refined by the
 tlx model (new entries before their equivalents, `Spec.runInserts` = `Spec.runInsertsLB`) and the std-like one
